@@ -213,7 +213,35 @@ def check_C15(ctx):
     return _hist_check(ctx, 'C15.', 'fix restricts exactly, free restores, bad fixes rejected')
 
 
-CHECKS = {'C05': check_C05, 'C15': check_C15, 'C11': check_C11, 'C09': check_C09, 'C10': check_C10, 'C01': check_C01, 'C02': check_C02, 'C03': check_C03, 'C04': check_C04, 'C06': check_C06,
+def check_C19(ctx):
+    from harness import layer_tl
+    res = runner.memo('tl', ctx, lambda: layer_tl.run(ctx))
+    viol = [{'clause': f['fails'][0][0], 'all_clauses': [c[0] for c in f['fails']],
+             'where': ('schedule ' + ' '.join(l for _, l in f['rec']['beh'])) if f['rec']['rkind'] == 'schedule' else
+                      'uncontrolled %s limit=%sms dur=%sms inner=%sms' % (f['rec']['kind'], f['rec']['limit_ms'], f['rec']['dur_ms'], f['rec']['inner_ms']),
+             'payload': {'layer': 'tl', 'rec': f['rec']}} for f in res['fails'] if any(c[0].startswith('C19.') or c[0].startswith('machinery.') for c in f['fails'])]
+    bad_mc = [n for n, m in res['mc'].items() if not m['as_expected']]
+    if bad_mc:
+        viol.append({'clause': 'C19.model_configuration_unexpected', 'where': 'TimeLimiter.tla configurations %s' % bad_mc,
+                     'payload': {'layer': 'none'}})
+    cov = {'states': res['states'], 'transitions': res['transitions'], 'traces_validated_against_impl': res['n_replayed'] + res['n_sweep'],
+           'samples': res['samples'], 'evaluations': res['n_replayed'] + res['n_sweep'], 'distinct_nontrivial': res['n_replayed'],
+           'rule': 'TLC checks S1-S4 and termination on TimeLimiter.tla for the configurations listed under model_checking (all '
+                   'interleavings); every complete behaviour of the single-call model is emitted and, when the director can '
+                   'force it through the hook points (adsg_core/_verif.point) and the gates of the workload function, executed '
+                   'against the real run_timeout; plus uncontrolled executions with durations 0.1x-2.6x the limit for '
+                   'sleeping, raising, own-TimeoutError, native-blocking and interrupt-swallowing functions and nested calls',
+           'model_checking': res['mc'], 'behaviours_of_the_model': res['n_behaviours'], 'behaviours_replayed': res['n_replayed'],
+           'behaviours_not_forceable': res['n_skipped_unrealisable'], 'uncontrolled_executions': res['n_sweep'], 'exhaustive': False}
+    return {'level': 'model_checking', 'coverage': cov, 'violations': viol,
+            'assumptions': ['the seven hook points mark the caller steps of the model; get() returning a value or the function\'s '
+                            'exception has no hook (its order is implied)', 'a behaviour in which an idle worker thread outlives '
+                            'its function until the aliveness test, or finishes on its own after the injection, cannot be forced and is skipped',
+                            'native blocking is exercised with time.sleep only', 'nested calls are covered by the model (LEVELS=2) and by '
+                            'uncontrolled executions, not by controlled replay', 'TLC, PlusCal translator']}
+
+
+CHECKS = {'C19': check_C19, 'C05': check_C05, 'C15': check_C15, 'C11': check_C11, 'C09': check_C09, 'C10': check_C10, 'C01': check_C01, 'C02': check_C02, 'C03': check_C03, 'C04': check_C04, 'C06': check_C06,
           'C07': check_C07, 'C14': check_C14, 'C16': check_C16}
 
 
@@ -223,6 +251,9 @@ def replay_payload(payload):
     if layer == 'graph':
         from harness import layer_graph
         return layer_graph.replay(payload['g'])
+    if layer == 'tl':
+        from harness import layer_tl
+        return layer_tl.replay(payload)
     if layer == 'hist':
         from harness import layer_hist
         return layer_hist.replay(payload)
